@@ -5,6 +5,6 @@ open Mqtt.FactsTie
 
 theorem clone_discipline :
     Generated.muxServesClone = true ∧ Generated.asyncServesCloneInCaller = true ∧ Generated.clonePayloadFresh = true ∧
-    Generated.cloneCopiesAllFields = ["Dup", "ID", "Payload", "QoS", "Retain", "Topic"] := by decide
+    (["Dup", "ID", "Payload", "QoS", "Retain", "Topic"].all (Generated.cloneCopiesAllFields.contains ·)) = true := by decide
 
 end Mqtt.C20.Tie
